@@ -448,7 +448,26 @@ def check(chk):
     pt, _ = C.find_method(cq.cls('TupleType'), 'deserialize_safe')
     cy_tests = [text(cl.condition) for n in walk(tf) if tname(n) == 'IfStatNode' for cl in n.if_clauses if 'itemlen' in text(cl.condition)]
     py_tests = [src(n.test) for n in body_walk(pt) if isinstance(n, ast.If) and 'itemlen' in src(n.test)]
-    chk.judge(cy_tests == ['itemlen >= 0'] and py_tests == ['itemlen >= 0'], 'C07.coll', (DES, 'DesTupleType.deserialize', des.line(tf)), 'tuple field: length >= 0 is a value (possibly empty), negative is null - on both sides',
+    def _value_lengths(test_text, value_in_body):
+        # the lengths among (-1, 0, 1) for which the arm that slices a value is taken
+        try:
+            code = compile(ast.parse(test_text, mode='eval'), '<tuple-null-test>', 'eval')
+        except SyntaxError:
+            return None
+        out = set()
+        for L in (-1, 0, 1):
+            try:
+                t_ = bool(eval(code, {'__builtins__': {}}, {'itemlen': L}))
+            except Exception:
+                return None
+            if t_ == value_in_body:
+                out.add(L)
+        return out
+    py_ifs = [n for n in body_walk(pt) if isinstance(n, ast.If) and 'itemlen' in src(n.test)]
+    py_sets = [_value_lengths(src(n.test), any(isinstance(x, ast.Subscript) and isinstance(x.slice, ast.Slice) for st_ in n.body for x in ast.walk(st_))) for n in py_ifs]
+    cy_ifs = [(cl, n) for n in walk(tf) if tname(n) == 'IfStatNode' for cl in n.if_clauses if 'itemlen' in text(cl.condition)]
+    cy_sets = [_value_lengths(text(cl.condition), any(tname(x) == 'SimpleCallNode' and text(x.function) == 'slice_buffer' for x in walk(cl.body))) for cl, _n in cy_ifs]
+    chk.judge(len(py_sets) == 1 and len(cy_sets) == 1 and py_sets[0] == cy_sets[0] == set([0, 1]), 'C07.coll', (DES, 'DesTupleType.deserialize', des.line(tf)), 'tuple field: length >= 0 is a value (possibly empty), negative is null - on both sides',
               'the compiled tuple/UDT decoder tests `%s` where the pure codec tests `%s`: a zero-length field (empty string/blob, EMPTY) decodes differently' % (cy_tests, py_tests))
     ok = [t for t, _ in unpack_types(tf)] == ['int32_t'] and C.formats_in(pt, 'r') == set(['>i'])
     chk.judge(ok, 'C07.coll', (DES, 'DesTupleType.deserialize', des.line(tf)), 'tuple field lengths are int32 on both sides', 'tuple field length width differs')
